@@ -4,11 +4,12 @@ from __future__ import annotations
 import itertools
 
 import numpy as np
+import shapely
 import pandas
 import xarray as xr
 from shapely.geometry import Point
 
-from .. import builders, ref
+from .. import builders, ref, sequences
 from ..runner import LibraryRaised, Recorder, lib
 
 PROPERTY = 'C05'
@@ -22,6 +23,7 @@ RULE = (
     "drop, fill} with an extra string column and custom point_dimension.  Non-trivial: lists with a "
     "repeat, a non-monotone order or at least one miss."
     ' Also: datasets with other dimensions of length one, overlapping cells, requests with blank (NaN) coordinates, and the history select / assign a variable in place / select again.'
+    " Datasets also arrive with a history: warmed convention, copy, deep copy, pickle, netCDF round trip, fully chunked (dask), and hand-built conventions for coordinates autodetection would not pick (decoy pair), after warm / pickle. Also (operation sequences, mc/sequences.py): for 8 base datasets and every sequence `first [middle] query` over 36 operations (queries, in-place edits a user makes, transforms whose result is used next; quick length 2, thorough length 3) ending in one of this property's own queries, the answer on the one used object equals the answer on a never-used rebuild. Second phase: the first case of every distinct outcome and kind (thorough: every case, for expensive checks every kind) again with debug logging enabled, under numpy.errstate(all='ignore'), and in python -O child interpreters."
 )
 LEVEL_TEXT = ('every index list of length <=3 over 4 cells (repeats, all orders) on every grid kind, every point list of length <=4 over {hit, tie, second, miss} under every missing-point policy, for select_index(es), select_points and extract_dataframe, compared with builder labels')
 LEVEL_NOTE = ('pandas/xarray merge semantics; all-miss with drop may be refused')
@@ -49,6 +51,9 @@ def datasets(tier):
         # overlapping cells: a point inside the overlap belongs to the lower index whatever was asked before it
         {'family': 'cf1d', 'ny': 2, 'nx': 3, 'bounds': 'overlap'},
     ]
+    specs += [s for s in builders.history_specs('quick')
+              if tier == 'thorough' or (len(s['history']) == 1 and s['family'] in ('cf2d', 'shoc_standard', 'ugrid')
+                                        and s['history'][0] in ('warm', 'pickle', 'chunk'))]
     if tier == 'thorough':
         specs += [
             {'family': 'cf1d', 'ny': 3, 'nx': 4, 'lat_kind': 'desc', 'names': 'other', 'coords_as': 'var'},
@@ -62,7 +67,7 @@ def datasets(tier):
     return specs
 
 
-def cases(tier):
+def _cases_first_call(tier):
     out = []
     for spec in datasets(tier):
         _, truth = builders.build(spec)
@@ -250,6 +255,29 @@ def point_symbols(truth):
             miss = found
             break
     symbols['miss'] = miss
+    # twins: two requests closer together than any sensible rounding (2^-26 of a degree, under a centimetre), one just
+    # inside the model, one just outside it
+    symbols['twin-in'] = symbols['twin-out'] = None
+    union = shapely.union_all([polys[n] for n in valid])
+    eps = 2.0 ** -27
+    for n in valid:
+        ring = list(polys[n].exterior.coords)
+        for (ax, ay), (bx, by) in zip(ring[:-1], ring[1:]):
+            mx, my = (ax + bx) / 2, (ay + by) / 2
+            dx, dy = by - ay, -(bx - ax)
+            norm = max(abs(dx), abs(dy))
+            if norm == 0:
+                continue
+            dx, dy = dx / norm * eps, dy / norm * eps
+            for sx in (1.0, -1.0):
+                inside, outside = Point(mx - sx * dx, my - sx * dy), Point(mx + sx * dx, my + sx * dy)
+                if ref.brute_hits(polys, inside) == [n] and not ref.brute_hits(polys, outside) and not union.covers(outside):
+                    symbols['twin-in'], symbols['twin-out'] = inside, outside
+                    break
+            if symbols['twin-in'] is not None:
+                break
+        if symbols['twin-in'] is not None:
+            break
     symbols['_polys'] = polys
     symbols['_has_tie'] = tie is not None
     symbols['_holes'] = holes
@@ -276,6 +304,8 @@ def run_points_case(case, rec):
         # a request with missing coordinates (a blank cell of a table) intersects nothing: one more kind of miss
         names = names + ['blank']
         symbols['blank'] = Point(float('nan'), float('nan'))
+    if case['length'] <= 2 and symbols.get('twin-in') is not None:
+        names = names + ['twin-in', 'twin-out']
     for combo in itertools.product(names, repeat=case['length']):
         points = [symbols[s] for s in combo]
         cells = [cell_of(p) for p in points]
@@ -323,8 +353,19 @@ def run_points_case(case, rec):
             'lon': [p.x for p in points], 'lat': [p.y for p in points],
             'name': [f'row{k}' for k in range(len(points))],
         })
-        for policy in ('error', 'drop', 'fill'):
-            label = f"extract_dataframe({list(combo)}, {policy})"
+        # the table's own row labels are not positions: labels left over from filtering a longer table, reversed, names
+        n_rows = len(points)
+        labelled = [('positions', frame)]
+        if case['length'] <= 3:
+            labelled += [
+                ('filtered-labels', frame.set_axis([3 * k + 2 for k in range(n_rows)], axis=0)),
+                ('reversed-labels', frame.set_axis(list(range(n_rows))[::-1], axis=0)),
+                ('named-rows', frame.set_axis([f'station-{k}' for k in range(n_rows)], axis=0)),
+            ]
+        for (labels, frame), policy in itertools.product(labelled, ('error', 'drop', 'fill')):
+            label = f"extract_dataframe({list(combo)}, {policy}{'' if labels == 'positions' else ', table with ' + labels})"
+            if labels != 'positions':
+                rec.nontrivial(('labels', labels, combo))
             try:
                 result = lib(point_extraction.extract_dataframe, ds, frame, ('lon', 'lat'), missing_points=policy)
             except LibraryRaised as err:
@@ -341,7 +382,7 @@ def run_points_case(case, rec):
                 rec.check(False, f"{fp}/error-policy-did-not-raise", label, 'NonIntersectingPoints', 'returned')
                 continue
             rows = list(range(len(points))) if policy == 'fill' else hits
-            ok = 'point' in result.dims and [int(v) for v in result['point'].values] == rows
+            ok = 'point' in result.dims and [v.item() if hasattr(v, 'item') else v for v in result['point'].values] == rows
             rec.check(ok, f"{fp}/dataframe-rows", f"{label}: rows kept", rows,
                       result['point'].values if 'point' in result.variables else dict(result.sizes))
             if not ok:
@@ -380,10 +421,27 @@ def run_points_case(case, rec):
     rec.outcome([truth.family, 'points', case['length'], symbols['_has_tie']])
 
 
-def run_case(case):
+def _run_case_first_call(case):
     rec = Recorder()
     if case['part'] == 'index':
         run_index_case(case, rec)
     else:
         run_points_case(case, rec)
     return rec.result()
+
+
+from ..runner import coarse_environment_key as environment_key  # noqa: E402  (expensive cases: second phase on one case per kind)
+ENVIRONMENTS_ON_REPRESENTATIVES_ONLY = True
+
+
+def cases(tier):
+    # first calls on freshly built datasets, then operation sequences on one object (mc/sequences.py)
+    return _cases_first_call(tier) + sequences.cases_for(PROPERTY, tier)
+
+
+def run_case(case):
+    if case.get('part') == 'sequence':
+        rec = Recorder()
+        sequences.run_case(PROPERTY, case, rec)
+        return rec.result()
+    return _run_case_first_call(case)
